@@ -239,6 +239,9 @@ pub(crate) fn decompress(x: &[u8], n: usize) -> Option<Vec<i16>> {
             return None;
         }
         high_bits += 1;
+        if high_bits == 95 {
+            return None;
+        }
     }
 
     // test if coefficient encoded properly
